@@ -120,6 +120,19 @@ def fixed_scenarios(seed):
                     diseases=[dict(type='ebola', init_prev=0.3, log=True, beta=dict(kind='scalar', v=0.5, tp=False)),
                               dict(type='syphilis', init_prev=0.3, log=True, beta=dict(kind='dict', entries={'STATIC': [_b(0), _b(0.9)], 'random': _b(0.3)}))],
                     rel=None))
+    # 8. sexual networks with low-frequency acts: partnerships without any act (acts == 0) and with fewer than one act per step
+    #    (Poisson(1) acts a year at dt 1 and 0.25; default 80 acts a year at daily steps), high betas, weights with zeros
+    out.append(dict(family='lowacts', n_agents=140, rand_seed=2700 + s, dt=[1.0, 0.25][s % 2], npts=6,
+                    networks=[dict(type='mf', duration=4, acts=[1.0, 2.0][s % 2]), dict(type='msm', duration=3, acts=[0.5, 3.0][(s // 2) % 2])],
+                    demographics=[],
+                    diseases=[dict(type=['sis', 'hiv', 'gonorrhea'][s % 3], init_prev=0.4,
+                                   beta=dict(kind='dict', entries={'mf': [_b(0.95), _b(0.8, True)], 'MSM': _b(0.9)}))],
+                    rel=dict(seed=81 + s, p_zero=0.1, edge_beta=True)))
+    out.append(dict(family='lowacts', n_agents=140, rand_seed=2750 + s, dt=[1 / 365, 1 / 52][s % 2], npts=6,
+                    networks=[dict(type=['mf', 'embedding'][s % 2], duration=4, acts=[None, 12.0][(s // 2) % 2])],
+                    demographics=[],
+                    diseases=[dict(type='sis', init_prev=0.5, beta=dict(kind='scalar', v=1.0, tp=False))],
+                    rel=None))
     # 7. age-band pools (AgeGroup objects of every cache setting, separate and shared) over births, deaths and fast ageing
     from harness.props import c12_groups
     out.append(c12_groups.ageband_cfg(s, 0))
